@@ -272,6 +272,28 @@ CHECKS.update({
         engine="typeswitch"),
 })
 
+CHECKS.update({
+    "C11": dict(
+        category="model_checking",
+        text="Regex.tla models regular-expression ASTs as the quasilyte parser sees them (chars, dot, three kinds of escapes, octal "
+             "escapes, classes with ranges / posix items / negation, groups, numbered and named captures, greedy and lazy quantifiers, "
+             "{m,n} repeats, concatenation, alternation incl. empty alternatives), leftmost-first matching with capture vectors, and a "
+             "transcription of regexpSimplify's rewrite actions, their context guards, the read-back of printed class bodies and brace "
+             "repeats, and the two-pass driver. SameLanguage holds with the guards of the repaired tree plus the leftmost-first guard "
+             "on prefix factoring; each of five what-ifs (one guard off) refutes it. All enumerated ASTs (11 530 quick; level 2 in the "
+             "thorough tier) are printed into regexp.MustCompile(...) calls; the real checker analyses them (fresh instance per file, "
+             "sequentially and, race-instrumented, with all files concurrently); Go's regexp judges every real suggestion (compiles, "
+             "NumSubexp, SubexpNames, FindStringSubmatchIndex on all subjects up to length 4 over the pattern's alphabet plus a foreign "
+             "char) and validates the module's matcher on 340 000 exported Find results (a disagreement makes the run undecided). The "
+             "model predicts the real output on every enumerated pattern (drift is reported, never a verdict); violations are "
+             "classified by the rewrite actions the model applied.",
+        design_ref="DESIGN.md section 6 C11, Appendix A.13",
+        note="Bounded ASTs over a 17-symbol alphabet; flags, anchors, Unicode classes, \\Q..\\E and repeats of nullable operands are "
+             "not enumerated. Two known findings (prefix factoring asserted by the repository's tests; {1} after an octal escape).",
+        technique="exhaustive TLC enumeration + semantic model validated against regexp; real rewrites judged by regexp",
+        engine="regex"),
+})
+
 NOT_YET = "check not built yet (construction in progress; see DESIGN.md section 6)"
 NOT_APPLICABLE = {}
 
